@@ -119,6 +119,78 @@ theorem C05_scratch (c : Corpus T) (h : c.WF) :
   unfold Corpus.get
   cases alookup c id <;> simp [alookup]
 
+/-! ### rewrites that keep some statistics, and returns to an earlier text
+
+`C05_maintain` already covers every rewrite.  The corollaries below spell out the cases in which an
+implementation is tempted to skip work because "nothing changed": the record written for a non-empty
+text depends on the new tokens only; the last text written to a point determines what a search sees,
+whatever came in between; returning to an earlier text returns to the earlier observable index;
+rotating texts between documents keeps corpus size and every document frequency and still exchanges
+the records (so none of these statistics can stand in for a comparison of the records). -/
+
+/-- the record stored for a point whose new text has tokens is computed from the new tokens alone —
+length = number of tokens, frequency of `t` = occurrences of `t` — whatever record (same
+vocabulary, same length, …) the index held before.  No invariant is needed. -/
+theorem C05_rewrite_record (ix : Index T) (id : Id) (toks : List T) (h : toks ≠ []) :
+    ∃ r, alookup (processDoc ix (id, toks)).docs id = some r ∧ r.length = toks.length ∧
+      ∀ t, freqOf r t = toks.count t := by
+  obtain ⟨a, l, rfl⟩ := List.exists_cons_of_ne_nil h
+  refine ⟨⟨freqsOf (a :: l), (a :: l).length⟩, ?_, rfl, fun t => freqOf_freqsOf _ _ t⟩
+  unfold processDoc
+  cases hd : alookup ix.docs id <;> simp [hd, alookup_aput]
+
+/-- only the last text written to a point counts: writing `t1` and then `t2` leaves what a search
+can observe exactly as writing `t2` directly (in one batch or across batches; `t1`, `t2` may be
+empty = blank-out / removal). -/
+theorem C05_last_write_wins {ix : Index T} {c : Corpus T} (h : TextInv ix c) (id : Id) (t1 t2 : List T) :
+    ObsEq (processDoc (processDoc ix (id, t1)) (id, t2)) (processDoc ix (id, t2)) := by
+  apply C05_inv_unique (C05_maintain (C05_maintain h id t1) id t2) (C05_maintain h id t2)
+  intro x
+  simp only [Corpus.get_set]
+  by_cases hx : id = x <;> simp [hx]
+
+/-- returning to an earlier state: after any detour `mid` (another text, a blank-out, a removal),
+writing back the tokens the document had gives back the observable index it had; with
+`mid = c.get id` this is "rewriting a document with the same tokens changes nothing". -/
+theorem C05_return {ix : Index T} {c : Corpus T} (h : TextInv ix c) (id : Id) (mid : List T) :
+    ObsEq (processDoc (processDoc ix (id, mid)) (id, c.get id)) ix := by
+  apply C05_inv_unique (C05_maintain (C05_maintain h id mid) id (c.get id)) h
+  intro x
+  simp only [Corpus.get_set]
+  by_cases hx : id = x <;> simp [hx]
+
+/-- exchanging the texts of two documents keeps the corpus size and **every** document frequency,
+and exchanges the two documents' token lists (hence, by `C05_maintain` + `C05_stats`, their records
+and scores): unchanged corpus statistics do not mean unchanged records. -/
+theorem C05_rotate {c : Corpus T} (h : c.WF) (a b : Id) (hab : a ≠ b) :
+    let c' := (c.set a (c.get b)).set b (c.get a)
+    specNumDocs c' = specNumDocs c ∧ (∀ t, specDf c' t = specDf c t) ∧
+    c'.get a = c.get b ∧ c'.get b = c.get a ∧ (∀ id, id ≠ a → id ≠ b → c'.get id = c.get id) := by
+  intro c'
+  have h1 := Corpus.WF_set h a (c.get b)
+  have hb1 : (c.set a (c.get b)).get b = c.get b := by rw [Corpus.get_set]; simp [hab]
+  refine ⟨?_, ?_, ?_, ?_, ?_⟩
+  · have e1 := Corpus.length_set h a (c.get b)
+    have e2 := Corpus.length_set h1 b (c.get a)
+    rw [hb1] at e2
+    show ((c.set a (c.get b)).set b (c.get a)).length = c.length
+    generalize (if c.get a = [] then 0 else 1) = x at e1 e2
+    generalize (if c.get b = [] then 0 else 1) = y at e1 e2
+    omega
+  · intro t
+    have e1 := specDf_set h a (c.get b) t
+    have e2 := specDf_set h1 b (c.get a) t
+    rw [hb1] at e2
+    show specDf ((c.set a (c.get b)).set b (c.get a)) t = specDf c t
+    omega
+  · show ((c.set a (c.get b)).set b (c.get a)).get a = c.get b
+    rw [Corpus.get_set, Corpus.get_set]; simp [Ne.symm hab]
+  · show ((c.set a (c.get b)).set b (c.get a)).get b = c.get a
+    rw [Corpus.get_set]; simp
+  · intro id ha hb
+    show ((c.set a (c.get b)).set b (c.get a)).get id = c.get id
+    rw [Corpus.get_set, Corpus.get_set]; simp [Ne.symm ha, Ne.symm hb]
+
 /-! ### the order inside a batch
 
 `parallelAnalyse` hands the documents of a batch to `NumCPU-1` workers and merges their outputs
@@ -372,5 +444,47 @@ example : ∃ set rs,
 example : ([(2, [7]), (3, [8])] : List (Doc Nat)).Perm [(3, [8]), (2, [7])] ∧
     (([(3, [8]), (2, [7])] : List (Doc Nat)).map (·.1)).Nodup := by
   refine ⟨List.Perm.swap _ _ _, by decide⟩
+
+/-- **the statistics a shortcut might compare do not determine the score.**  Rewriting
+`[1,1,2]` into `[1,2,2]` keeps the vocabulary, the length, the multiset of frequencies, the corpus
+size and every document frequency — and changes the score of the document for the query `[1]`. -/
+theorem C05_preserved_statistics_witness :
+    let old : List Nat := [1, 1, 2]
+    let new : List Nat := [1, 2, 2]
+    let c : Corpus Nat := [(5, old), (6, [1, 3])]
+    let c' := c.set 5 new
+    (∀ t, t ∈ old ↔ t ∈ new) ∧ old.length = new.length ∧
+    ((dedup old).map old.count).Perm ((dedup new).map new.count) ∧
+    specNumDocs c' = specNumDocs c ∧ (∀ t, specDf c' t = specDf c t) ∧
+    specScore exOps c' [1] 5 ≠ specScore exOps c [1] 5 := by
+  intro old new c c'
+  have hwf : c.WF := ⟨by decide, by decide⟩
+  have hv : ∀ t, t ∈ old ↔ t ∈ new := by intro t; simp [old, new]
+  refine ⟨hv, rfl, by decide, by decide, ?_, by decide⟩
+  intro t
+  have e := specDf_set hwf 5 new t
+  have hg : c.get 5 = old := by decide
+  rw [hg] at e
+  show specDf (c.set 5 new) t = specDf c t
+  by_cases ht : t ∈ old
+  · have := (hv t).mp ht; simp [ht, this] at e; exact e
+  · have : t ∉ new := fun hn => ht ((hv t).mpr hn)
+    simp [ht, this] at e; exact e
+
+
+/-- `C05_last_write_wins` / `C05_return` on an index reached through a history; `C05_rotate` on a
+concrete corpus with two different documents -/
+example : ObsEq (processDoc (processDoc (exHistory.foldl applyBatch ({} : Index Nat)) (2, [])) (2, [5, 5, 9]))
+    (processDoc (exHistory.foldl applyBatch ({} : Index Nat)) (2, [5, 5, 9])) :=
+  C05_last_write_wins (C05_history exHistory) 2 [] [5, 5, 9]
+
+example : (exHistory.foldl Corpus.apply ([] : Corpus Nat)).get 3 = [7, 7, 7] ∧
+    ObsEq (processDoc (processDoc (exHistory.foldl applyBatch ({} : Index Nat)) (3, [])) (3, [7, 7, 7]))
+      (exHistory.foldl applyBatch ({} : Index Nat)) :=
+  ⟨by decide, C05_return (C05_history exHistory) 3 []⟩
+
+example : Corpus.WF ([(1, [4, 4, 5]), (2, [5, 6])] : Corpus Nat) ∧ (1 : Id) ≠ 2 ∧
+    ([(1, [4, 4, 5]), (2, [5, 6])] : Corpus Nat).get 1 ≠ ([(1, [4, 4, 5]), (2, [5, 6])] : Corpus Nat).get 2 :=
+  ⟨⟨by decide, by decide⟩, by decide, by decide⟩
 
 end Sema.C05
